@@ -38,11 +38,23 @@ def plan(tier, seed):
         for k in range(k_pop):
             items.append(dict(date=str(d), k=k, seed=seed, n_hh=int(4 + (k % 4) * 3),
                               rotations=(k % 3 == 0)))
+    # exhaustive part: every row order of a small population (one household of 4-5 persons)
+    arch = ["patchwork", "family_m", "three_gen", "selfsufficient_kids", "single_parent", "family_u"]
+    for i in range(2 if tier == "quick" else 12):
+        items.append(dict(date=str(dates[(i * 7) % len(dates)]), k=1000 + i, seed=seed, n_hh=1, rotations=False,
+                          all_orders=True, archetype=arch[i % len(arch)]))
     return items
 
 
-def _orders(rng, df, rotations):
+def _orders(rng, df, rotations, all_orders=False):
     n = len(df)
+    if all_orders:
+        import itertools
+
+        perms = list(itertools.permutations(range(n)))
+        if len(perms) > 720:
+            perms = [perms[i] for i in rng.choice(len(perms), 720, replace=False)]
+        return [("identity+labels", np.arange(n))] + [(f"perm{i}", np.array(p)) for i, p in enumerate(perms[1:])]
     orders = [("identity+labels", np.arange(n))]
     orders.append(("reverse", np.arange(n)[::-1]))
     orders.append(("children_first", np.argsort(df["alter"].to_numpy(), kind="stable")))
@@ -72,13 +84,22 @@ def run_item(item):
     d = datetime.date.fromisoformat(item["date"])
     rng = rng_for(item["seed"], PROPERTY, d.toordinal(), item["k"])
     params, functions = env.environment(d)
-    df = popgen.population(rng, d, n_hh=item["n_hh"], params=params)
+    if item.get("all_orders"):
+        df = popgen.population(rng, d, n_hh=1, params=params, archetypes=[item["archetype"]])
+        for _ in range(20):
+            if 3 <= len(df) <= 5:
+                break
+            df = popgen.population(rng, d, n_hh=1, params=params, archetypes=[item["archetype"]])
+        if len(df) > 6:
+            df = popgen.population(rng, d, n_hh=1, params=params, archetypes=["family_m"])
+    else:
+        df = popgen.population(rng, d, n_hh=item["n_hh"], params=params)
     base, nodes, roots, dag, fn = env.trace(df, params, functions)
     kinds = env.classify(fn)
     res = dict(date=item["date"], k=item["k"], persons=len(df), households=int(df.hh_id.nunique()),
                pop=popgen.digest(df), runs=0, nodes=len(nodes), nodes_compared=0, noise=0,
                amplified=[], violations=[], cases=[], float_noise_nodes=set())
-    for li, (name, perm) in enumerate(_orders(rng, df, item["rotations"])):
+    for li, (name, perm) in enumerate(_orders(rng, df, item["rotations"], item.get("all_orders", False))):
         dfp = df.iloc[perm].copy()
         dfp.index = _labels(rng, len(df), li % 4)
         try:
@@ -102,7 +123,7 @@ def run_item(item):
                 key=f"{v['node']}:{'partition' if v['kind'] == 'partition' else 'value'}",
                 order=name, perm=perm.tolist(),
                 what=f"node {v['node']} differs under row order {name}: {v}", detail=v))
-        nontrivial = name != "identity+labels" and res["households"] >= 2
+        nontrivial = name != "identity+labels" and (res["households"] >= 2 or item.get("all_orders", False))
         res["cases"].append((res["pop"], name, bool(nontrivial)))
     # debug mode keeps the caller's rows in order
     try:
@@ -153,6 +174,7 @@ def summarize(results, tier, seed):
              "distinct by (population digest, order name)",
         dates=sorted({r["date"] for r in ok}),
         populations=len({r["pop"] for r in ok}),
+        populations_with_all_row_orders=[(r["persons"], r["runs"]) for r in ok if r["_item"].get("all_orders")],
         node_comparisons=compared,
         float_sum_noise_events=noise,
         float_sum_noise_nodes=sorted(noise_nodes)[:40],
